@@ -78,6 +78,8 @@ func routeAndPayload(r hx.T, tag int64) (string, []byte) {
 			return ty + ".h.echolater", good
 		case "MUnencLater":
 			return ty + ".h.unenclater", good
+		case "MEncPanicLater":
+			return ty + ".h.encpaniclater", good
 		case "MBadPayload":
 			return ty + ".h.echo", []byte(`{"T":`)
 		}
